@@ -342,6 +342,173 @@ theorem leaveLowering_differs_only_in_flag (t : Thread) (o : Option Err) :
     (leaveLowering t o).halt = false ∧ (leaveT t o).halt = t.halt :=
   ⟨rfl, rfl, rfl, (leaveT_flags t o).1⟩
 
+/-! ### 1d. The top-level code of an imported module runs under the importer's context
+
+`import m` of a source module evaluates the module's top-level code by a nested `eval` on the
+same VM.  The property covers that code like any other: a cancellation that arrives while a
+module body loops, is blocked in a context-aware primitive, or after it started goroutines,
+must stop all of it.  That rests on ONE fact — `importModule` hands `eval` the context it was
+given (`Ties.import_body_runs_under_importers_ctx_tie`) — which the model has as "code inside
+an `.imp` frame is stepped with the same signal as the code around it" (`stepImp .follows`),
+and which is contrasted here with an `importModule` that hands the body a context that is not
+cancelled with the run's (`stepImp .detached`, `iterNever`).  Everything is for ALL frame
+stacks (imports nested in callbacks, script calls, deferred calls, other imports, in any
+order), all primitives, all continuations. -/
+
+/-- the code as it is treats code inside an import like any other: `stepImp .follows` IS
+    `stepT`, for every state and every signal -/
+theorem stepImp_follows (c : Bool) (t : Thread) : stepImp .follows c t = stepT c t := rfl
+
+theorem iterImp_follows (n : Nat) (t : Thread) : iterImp .follows n t = iter n t := by
+  induction n generalizing t with
+  | zero => rfl
+  | succ n ih =>
+    show iterWith _ n (stepImp .follows true t).1 = iter n (stepT true t).1
+    exact ih _
+
+/-- `import_starts_nested_eval`: with the flag down and the context live, `import m` of a
+    module that has not been imported yet pushes ONE frame — not a function frame: it holds
+    no deferred closures — and goes on with the module's top-level code on the same VM; flag,
+    watcher and thread are untouched, nothing is spawned, and from then on the thread is
+    `inImport` -/
+theorem import_starts_nested_eval (t : Thread) (body k : Prog) (hh : t.halt = false)
+    (hr : t.st = .run (.cb .imp body k)) :
+    stepT false t = ({ t with st := .run body, frames := (.imp, k, []) :: t.frames }, none) ∧
+    inImport (stepT false t).1.frames = true := by
+  obtain ⟨id, halt, armed, st, frames⟩ := t
+  simp only at hh hr
+  subst hh hr
+  simp [stepT, inImport]
+
+/-- `import_after_cancellation_fails`: an `import` of a module that has not been imported yet,
+    reached AFTER the context has fired, starts nothing: the importer parses the module with
+    the same context and fails with the context's own error (flag down: e.g. on a clone VM,
+    which has no watcher — a spawned function that leaves a sleep or a range over a channel
+    after the cancellation cannot enter a module body any more); with the flag raised the poll
+    stops the instruction first.  Either way no instruction of the module body executes
+    (no import frame is pushed), nothing is spawned, and the thread is closer to its end. -/
+theorem import_after_cancellation_fails (t : Thread) (body k : Prog)
+    (hr : t.st = .run (.cb .imp body k)) :
+    (t.halt = false → stepT true t = ({ t with st := .raising .ctx }, none)) ∧
+    (t.halt = true → stepT true t = (haltedT t, none)) ∧
+    (stepT true t).2 = none ∧ potT (stepT true t).1 < potT t := by
+  have hd := step_decr t (by rw [hr]; rfl) (by rw [hr]; intro h; cases h.1)
+  have hhalt : t.halt = true → stepT true t = (haltedT t, none) :=
+    fun hh => stepT_halted true t _ hh hr (Or.inl (by simp))
+  have hlive : t.halt = false → stepT true t = ({ t with st := .raising .ctx }, none) := by
+    intro hh
+    obtain ⟨id, halt, armed, st, frames⟩ := t
+    simp only at hh hr
+    subst hh hr
+    simp [stepT]
+  refine ⟨hlive, hhalt, ?_, hd⟩
+  cases hh : t.halt
+  · rw [hlive hh]
+  · rw [hhalt hh]
+
+/-- `import_error_unchanged`: an error that leaves the top-level code of a module — the
+    context's error raised by a poll or by a channel operation, anything else — is returned by
+    the importing `eval` as it is (`wrapErr .imp e = some e`): the frame is popped, the same
+    error goes on unwinding; and a module body that ends normally resumes the importer -/
+theorem import_error_unchanged (c : Bool) (t : Thread) (k : Prog) (fs : List Frame)
+    (hf : t.frames = (.imp, k, []) :: fs) :
+    (∀ e, t.st = .raising e → stepT c t = ({ t with st := .raising e, frames := fs }, none)) ∧
+    (t.st = .run .done → t.halt = false → stepT c t = ({ t with st := .run k, frames := fs }, none)) := by
+  obtain ⟨id, halt, armed, st, frames⟩ := t
+  simp only at hf
+  subst hf
+  refine ⟨fun e hs => ?_, fun hs hh => ?_⟩
+  · simp only at hs; subst hs
+    cases e <;> simp [stepT, leaveT, returnT, wrapErr]
+  · simp only at hs hh; subst hs hh
+    simp [stepT, leaveT, returnT]
+
+/-- `import_body_blocked_unblocks`: the blocking primitives of a module body select on the
+    context the importing `eval` runs under.  Under the code as it is, a thread blocked in ANY
+    context-aware primitive under ANY frame stack — in particular inside the top-level code of
+    a module being imported, at any depth — leaves the primitive as soon as the run's context
+    has fired (with the primitive's error, or normally for `sleep` / range), watcher or not. -/
+theorem import_body_blocked_unblocks (t : Thread) (pr : Prim) (k : Prog) (hb : t.st = .blocked pr k) :
+    (stepImp .follows true t).1.st = (match primEffect pr with
+      | some e => .raising e
+      | none => .run (afterPrim pr k)) ∧ (stepImp .follows true t).1.st ≠ t.st :=
+  ⟨blocked_unblocks t pr k hb, every_primitive_reacts pr k t hb⟩
+
+/-- `importDetached_not_stopped`: the property does NOT hold for an `importModule` that
+    evaluates the module body under a context that is not cancelled with the run's.  For EVERY
+    thread blocked in a context-aware primitive inside the top-level code of a module being
+    imported — whatever the primitive, whatever follows it, whatever frames lie around the
+    import, and EVEN WITH the halt flag of its VM raised (a thread inside a `select` executes
+    no instruction, so no poll can help it) — no own step ever changes it under the variant:
+    the evaluation never returns.  Under the code as it is the same thread leaves the primitive
+    at its next step, and with the flag raised it has ended within `potT t` own steps. -/
+theorem importDetached_not_stopped (t : Thread) (pr : Prim) (k : Prog)
+    (hb : t.st = .blocked pr k) (hi : inImport t.frames = true) :
+    (∀ n, iterImp .detached n t = t) ∧ (∀ n, (iterImp .detached n t).st.isFin = false) ∧
+    (stepImp .follows true t).1.st ≠ t.st ∧
+    (t.halt = true → (iterImp .follows (potT t) t).st.isFin = true) := by
+  have hstep : (stepImp .detached true t).1 = t := by
+    show (stepT (seenBy .detached true t.frames) t).1 = t
+    simp only [seenBy, hi, Bool.not_true, Bool.and_false]
+    rw [stepT_blocked_unfired t pr k hb]
+  have hfix : ∀ n, iterImp .detached n t = t := fun n => iterWith_fix _ n t hstep
+  refine ⟨hfix, fun n => ?_, (import_body_blocked_unblocks t pr k hb).2, fun hh => ?_⟩
+  · rw [hfix n, hb]; rfl
+  · rw [iterImp_follows]; exact halted_thread_finishes t hh _ (Nat.le_refl _)
+
+/-- outside an import the variant changes nothing: it is the code as it is -/
+theorem importDetached_same_outside_import (c : Bool) (t : Thread) (hi : inImport t.frames = false) :
+    stepImp .detached c t = stepT c t := by
+  show stepT (seenBy .detached c t.frames) t = stepT c t
+  simp [seenBy, hi]
+
+/-- `inherited_ctx_never_fires_never_stops`: a function started with `go`/`spawn` runs on a
+    clone VM without a watcher; the context it INHERITS is all that ever stops it.  Started by
+    a module body that had been handed a context which never fires, a thread blocked in a
+    context-aware primitive — waiting on a channel nobody feeds, sleeping, waiting for another
+    thread — stays there for ever (`iterNever`: every own step leaves it as it is); started by
+    the module body of the code as it is, it inherits the run's context, leaves the primitive
+    at its next step and, being loop-free, has ended within `potT t` own steps. -/
+theorem inherited_ctx_never_fires_never_stops (t : Thread) (pr : Prim) (k : Prog)
+    (hb : t.st = .blocked pr k) :
+    (∀ n, iterNever n t = t) ∧ (∀ n, (iterNever n t).st.isFin = false) ∧
+    (stepT true t).1.st ≠ t.st ∧
+    (noSpinT t = true → (iter (potT t) t).st.isFin = true) := by
+  have hstep : (stepT false t).1 = t := by rw [stepT_blocked_unfired t pr k hb]
+  have hfix : ∀ n, iterNever n t = t := fun n => iterWith_fix _ n t hstep
+  refine ⟨hfix, fun n => ?_, every_primitive_reacts pr k t hb, fun hs => ?_⟩
+  · rw [hfix n, hb]; rfl
+  · exact finishes_of_invariant (fun t => noSpinT t = true)
+      (fun t h => (noSpinT_step true t h).1)
+      (fun t h hs => by
+        obtain ⟨id, halt, armed, st, frames⟩ := t
+        simp only at hs
+        rw [hs.1] at h
+        simp [noSpinT, invP, stP, noSpin, allK] at h) _ t hs (Nat.le_refl _)
+
+/-- the verdict the oracle reports for the contrast (`imported` request: would the main
+    thread ever end if the module body were handed a context of kind `cc`) is exact: if it has
+    not ended after `potT` own steps it never will -/
+theorem stopsImp_iff (cc : Cc) (t : Thread) :
+    (∃ n, (iterImp cc n (fireT t)).st.isFin = true) ↔ stopsImp cc t = true := by
+  have hp : potT (fireT t) = potT t := by unfold fireT; split <;> rfl
+  constructor
+  · intro ⟨n, h⟩
+    show (iterImp cc (potT t) (fireT t)).st.isFin = true
+    rw [← hp]; exact iterWith_fin_within_pot _ (stepLike_imp cc) n _ h
+  · intro h; exact ⟨_, h⟩
+
+/-- …and so is the verdict for a thread whose inherited context never fires -/
+theorem stopsNever_iff (t : Thread) :
+    (∃ n, (iterNever n t).st.isFin = true) ↔ stopsNever t = true := by
+  constructor
+  · intro ⟨n, h⟩; exact iterWith_fin_within_pot _ stepLike_never n _ h
+  · intro h; exact ⟨_, h⟩
+
+/-- for the code as it is the two verdicts coincide: `stopsImp .follows` is `stops` -/
+theorem stopsImp_follows (t : Thread) : stopsImp .follows t = stops t := by
+  unfold stopsImp stops; rw [iterImp_follows]
+
 /-! ### 3. The verdict the oracle reports is exact -/
 
 /-- `stops` (what the oracle answers per thread: run `potT` own steps after the watcher, if
@@ -459,6 +626,27 @@ theorem C06_spec_arm_clones : C06_full specCfg := by
   refine ⟨potT (fireT t), halted_thread_finishes _ ?_ _ (Nat.le_refl _)⟩
   unfold fireT; rw [if_pos ha]
 
+/-- `C06_partial_import` (the partial theorem read for imports): for every program in which
+    no spawned function contains an unbounded compute loop (`noCloneSpin`; the top-level code of
+    imported modules may loop, block, call back, import further modules and spawn), in every
+    state reachable by any trace after the cancellation: a thread that is inside the top-level
+    code of a module it is importing (`inImport`, at any depth of frames) ends once its
+    watcher, if it has one, has fired; and every thread WITHOUT a watcher — every function a
+    module body (or anything else) started with `go`/`spawn`, on its clone VM — ends by its own
+    steps alone, through the context it inherited. -/
+theorem C06_partial_import (p : Prog) (hg : noCloneSpin p = true) (σ : List Label)
+    (hc : (exec implCfg (init p) σ).cancelled = true) :
+    (∀ t ∈ (exec implCfg (init p) σ).threads, inImport t.frames = true →
+      ∃ n, (iterImp .follows n (fireT t)).st.isFin = true) ∧
+    (∀ t ∈ (exec implCfg (init p) σ).threads, t.armed = false →
+      ∃ n, (iter n t).st.isFin = true) := by
+  refine ⟨fun t ht _ => ?_, fun t ht ha => ?_⟩
+  · obtain ⟨n, hn⟩ := C06_partial p hg σ hc t ht
+    exact ⟨n, by rw [iterImp_follows]; exact hn⟩
+  · obtain ⟨n, hn⟩ := C06_partial p hg σ hc t ht
+    have : fireT t = t := by unfold fireT; rw [ha]; rfl
+    exact ⟨n, by rw [this] at hn; exact hn⟩
+
 /-- bridge from the per-thread form used in `C06_full` to traces: if thread `i` ends after
     `n` own steps once its watcher has fired, then in EVERY interleaving that follows the
     watcher's firing, it has ended as soon as it was scheduled `n` times. -/
@@ -476,37 +664,50 @@ theorem ends_in_every_interleaving (cfg : Cfg) (s : Sys) (i : Nat) (t : Thread) 
 /-! ### 5. Which error the call returns -/
 
 /-- state of a thread that can only end with the context's own error: no enclosing
-    callback, blocked only in a primitive that returns `ctx.Err()` itself -/
+    callback — nothing around it but the top-level code of modules being imported (`impF`;
+    an import hands the error on unchanged) —, blocked only in a primitive that returns
+    `ctx.Err()` itself -/
 def ctxOnly (t : Thread) : Bool :=
-  t.frames.isEmpty && (match t.st with
+  impF t.frames && (match t.st with
     | .run p => t.halt && p != .done
     | .blocked pr _ => primEffect pr == some .ctx
     | .raising e => e == .ctx
     | .leaving => false
     | .fin e => e == some .ctx)
 
-/-- `C06_partial_error_identity`: a thread outside every builtin callback that is stopped
-    by the poll (loops, recursion — `halt` set) or is blocked in a channel receive/send
-    ends with exactly the context's error (`errors.Is(err, ctx.Err())`), after at most
-    `potT t` own steps. -/
+/-- `C06_partial_error_identity`: a thread outside every builtin callback — in the main code
+    or, at any depth, in the top-level code of modules it is importing — that is stopped by
+    the poll (loops, recursion — `halt` set) or is blocked in a channel receive/send ends
+    with exactly the context's error (`errors.Is(err, ctx.Err())`), after at most `potT t`
+    own steps. -/
 theorem C06_partial_error_identity (t : Thread) (h : ctxOnly t = true) (n : Nat) (hn : potT t ≤ n) :
     (iter n t).st = .fin (some .ctx) := by
   have keep : ∀ t, ctxOnly t = true → ctxOnly (stepT true t).1 = true := by
     intro t h
     obtain ⟨id, halt, armed, st, frames⟩ := t
-    cases frames with
-    | cons f fs => simp [ctxOnly] at h
-    | nil =>
-      cases st with
-      | fin e => simpa [stepT] using h
-      | raising e => simp [ctxOnly] at h; simp [stepT, leaveT, ctxOnly, h]
-      | leaving => simp [ctxOnly] at h
-      | blocked pr k => simp [ctxOnly] at h; simp [stepT, h, ctxOnly]
-      | run p =>
-        simp [ctxOnly] at h
-        obtain ⟨hh, hp⟩ := h
-        subst hh
-        cases p <;> simp [stepT, ctxOnly, haltedT, detachedBy] at hp ⊢
+    simp only [ctxOnly, Bool.and_eq_true] at h
+    obtain ⟨hi, hs⟩ := h
+    have hdet := impF_detachedBy frames hi
+    cases st with
+    | fin e => simp [stepT, ctxOnly, hi]; simpa using hs
+    | raising e =>
+      simp at hs; subst hs
+      cases frames with
+      | nil => simp [stepT, leaveT, ctxOnly, impF]
+      | cons f fs =>
+        obtain ⟨w, k, ds⟩ := f
+        simp [impF] at hi
+        obtain ⟨⟨hw, hds⟩, hfs⟩ := hi
+        subst hw hds
+        simp [stepT, leaveT, returnT, wrapErr, ctxOnly, hfs]
+    | leaving => simp at hs
+    | blocked pr k => simp at hs; simp [stepT, hs, ctxOnly, hi]
+    | run p =>
+      simp at hs
+      obtain ⟨hh, hp⟩ := hs
+      subst hh
+      rw [stepT_halted true _ p rfl rfl (Or.inl hp), haltedT_of_none _ hdet]
+      simp [ctxOnly, hi]
   have hfin := finishes_of_invariant (fun t => ctxOnly t = true) keep
     (fun t h hs => by
       obtain ⟨id, halt, armed, st, frames⟩ := t
@@ -523,15 +724,16 @@ theorem C06_partial_error_identity (t : Thread) (h : ctxOnly t = true) (n : Nat)
   generalize iter n t = u at hfin hc
   obtain ⟨id, halt, armed, st, frames⟩ := u
   cases st <;> simp [St.isFin] at hfin
-  cases frames <;> simp [ctxOnly] at hc
-  simp [hc]
+  simp [ctxOnly] at hc
+  simp [hc.2]
 
 /-- `C06_partial_error_program` (the guard the harness attributes findings by, at program
-    level): for every program whose main code uses no callback-carrying builtin, no
-    `thread.wait`, no `time.sleep` and no range over a channel (`noLossy`: plain loops,
-    recursion, channel receive/send, spawns of anything), in every reachable state of every
-    interleaving, a main thread that was halted while it still had code to run ends with
-    exactly the context's error. -/
+    level): for every program whose main code — the top-level code of the modules it imports
+    included — uses no callback-carrying builtin, no `thread.wait`, no `time.sleep` and no
+    range over a channel (`noLossy`: plain loops, recursion, channel receive/send, imports of
+    such modules, spawns of anything), in every reachable state of every interleaving, a main
+    thread that was halted while it still had code to run ends with exactly the context's
+    error. -/
 theorem C06_partial_error_program (p : Prog) (hg : noLossy p = true) (σ : List Label) (t : Thread)
     (ht : t ∈ (exec implCfg (init p) σ).threads) (ha : t.armed = true) (hh : t.halt = true)
     (hnf : t.st.isFin = false) (hnd : t.st ≠ .run .done) (n : Nat) (hn : potT t ≤ n) :
@@ -542,21 +744,20 @@ theorem C06_partial_error_program (p : Prog) (hg : noLossy p = true) (σ : List 
       rw [ctxPath_fire]; apply h
       unfold fireT at ha; split at ha <;> assumption)
     (fun _ _ _ _ _ ha => by simp [newClone, implCfg] at ha)
-    σ (init p) (by intro t ht _; simp [init] at ht; subst ht; simp [ctxPath, hg])
+    σ (init p) (by intro t ht _; simp [init] at ht; subst ht; simp [ctxPath, impF, allK, hg])
   have hc := inv t ht ha
   apply C06_partial_error_identity t _ n hn
   obtain ⟨id, halt, armed, st, frames⟩ := t
   simp only at hh hnd
   subst hh
-  cases frames with
-  | cons f fs => simp [ctxPath] at hc
-  | nil =>
-    cases st with
-    | fin e => simp [St.isFin] at hnf
-    | raising e => simpa [ctxPath, ctxOnly] using hc
-    | leaving => simp [ctxPath] at hc
-    | blocked pr k => simp [ctxPath] at hc; simp [ctxOnly, hc]
-    | run q => simp [ctxOnly]; intro h; exact hnd (by rw [h])
+  simp only [ctxPath, Bool.and_eq_true] at hc
+  obtain ⟨⟨hi, _⟩, hs⟩ := hc
+  cases st with
+  | fin e => simp [St.isFin] at hnf
+  | raising e => simp at hs; simp [ctxOnly, hi, hs]
+  | leaving => simp at hs
+  | blocked pr k => simp at hs; simp [ctxOnly, hi, hs.1]
+  | run q => simp [ctxOnly, hi]; intro h; exact hnd (by rw [h])
 
 /-- the full statement about the returned error: a halted thread that still has code to
     run ends with the context's error -/
@@ -938,6 +1139,44 @@ example : ∃ t, (exec implCfg (init (.cb .fn (.defer_ .spin .done) .spin))
       ∧ t.frames = [(.dfr none, .done, []), (.fn, .spin, [])] ∧ (iter (potT t) t).st = .fin (some .ctx) :=
   ⟨{ id := 0, halt := true, armed := true, st := .run .spin, frames := [(.dfr none, .done, []), (.fn, .spin, [])] },
     by decide, by decide, by decide, by decide⟩
+
+/-- the import theorems are not vacuous: `import m` where the top-level code of `m` is
+    `go func(){ <-c }(); <-c` — a reachable state after the cancellation in which the main
+    thread is blocked INSIDE the module body and the function the module body started is
+    blocked on its clone VM without a watcher.  Under the code as it is both end with the
+    context's error (the import hands it on unchanged); had the module body been handed a
+    context that does not fire, neither would ever end -/
+example : (exec implCfg (init (.cb .imp (.spawn 1 (.block .recv .done) (.block .recv .done)) .spin))
+      [.step 0, .step 0, .step 0, .step 1, .cancel]).threads
+      = [{ id := 0, halt := false, armed := true, st := .blocked .recv .done, frames := [(.imp, .spin, [])] },
+         { id := 1, halt := false, armed := false, st := .blocked .recv .done, frames := [] }]
+    ∧ inImport [(Wrap.imp, Prog.spin, ([] : List Prog))] = true
+    ∧ (iter 3 (fireT { id := 0, halt := false, armed := true, st := .blocked .recv .done, frames := [(.imp, .spin, [])] })).st
+        = .fin (some .ctx)
+    ∧ (iter 2 { id := 1, halt := false, armed := false, st := .blocked .recv .done, frames := [] }).st = .fin (some .ctx)
+    ∧ stopsImp .detached { id := 0, halt := false, armed := true, st := .blocked .recv .done, frames := [(.imp, .spin, [])] } = false
+    ∧ stopsNever { id := 1, halt := false, armed := false, st := .blocked .recv .done, frames := [] } = false := by
+  decide
+
+/-- …the contrast is not only about threads that are already blocked when the context fires:
+    a spawned function (clone VM, no watcher) that imports a module whose top-level code
+    computes and then receives reaches the receive after the cancellation — it ends under
+    the code as it is and never under the variant.  (On a VM WITH a watcher the raised flag
+    stops the module body before it can reach another primitive: there the two differ exactly
+    for threads blocked inside an import, `importDetached_not_stopped`.) -/
+example : stops (Thread.mk 1 false false (.run (.compute (.block .recv .done))) [(.imp, .done, [])]) = true
+    ∧ stopsImp .detached (Thread.mk 1 false false (.run (.compute (.block .recv .done))) [(.imp, .done, [])]) = false
+    ∧ stopsImp .detached (Thread.mk 0 false true (.run .spin) [(.try_, .block .recv .done, []), (.imp, .done, [])]) = true := by
+  decide
+
+/-- `ctxOnly` / `noLossy` admit imports nested in imports: a loop in the top-level code of a
+    module imported by the top-level code of a module is stopped with the context's own error -/
+example : ctxOnly { id := 0, halt := true, armed := true, st := .run .spin,
+                    frames := [(.imp, .done, []), (.imp, .spin, [])] } = true
+    ∧ (iter 4 { id := 0, halt := true, armed := true, st := .run .spin,
+                frames := [(.imp, .done, []), (.imp, .spin, [])] }).st = .fin (some .ctx)
+    ∧ noLossy (.cb .imp (.block .recv (.cb .imp .spin .done)) (.spawn 1 (.cb .each .spin .done) .spin)) = true := by
+  decide
 
 /-- `raisesHalted` admits frames that hold deferred closures with `try` and loops in them -/
 example : raisesHalted { id := 0, halt := true, armed := true, st := .run .spin,
